@@ -63,24 +63,29 @@ type Recycler struct {
 func getRecyclerOfResource(resource string) *Recycler {
 	recyclerMutex.Lock()
 	defer recyclerMutex.Unlock()
-	if _, ok := recyclers[resource]; !ok {
-		recycler := &Recycler{
+	recycler, ok := recyclers[resource]
+	if !ok {
+		recycler = &Recycler{
 			resource: resource,
 			status:   make(map[string]bool),
 		}
-		rule := getOutlierRuleOfResource(resource)
-		if rule == nil {
-			logging.Error(errors.New("nil outlier rule"), "Nil outlier rule in getRecyclerOfResource()")
-		} else {
-			if rule.RecycleIntervalS == 0 {
-				recycler.interval = 10 * time.Minute
-			} else {
-				recycler.interval = time.Duration(rule.RecycleIntervalS) * time.Second
-			}
-		}
 		recyclers[resource] = recycler
 	}
-	return recyclers[resource]
+	// The interval follows the rule in force: the recycler is cached for the life of the process, and
+	// one that kept the interval of the rule it was created under ignored every later load.
+	rule := getOutlierRuleOfResource(resource)
+	if rule == nil {
+		logging.Error(errors.New("nil outlier rule"), "Nil outlier rule in getRecyclerOfResource()")
+	} else {
+		interval := 10 * time.Minute
+		if rule.RecycleIntervalS != 0 {
+			interval = time.Duration(rule.RecycleIntervalS) * time.Second
+		}
+		recycler.mtx.Lock()
+		recycler.interval = interval
+		recycler.mtx.Unlock()
+	}
+	return recycler
 }
 
 func (r *Recycler) scheduleNodes(nodes []string) {
